@@ -12,7 +12,10 @@ Definition toy_step (s : toy) (b : nat) (m : meth) (a : list arg) : ans * toy :=
       (mkAns VUnit None (Some (toy_next s)),
        mkToy (match bclass m a with CWrite => S (toy_tree s) | _ => toy_tree s end) (S (toy_next s)))
   | None =>
-      (mkAns (VInt (Z.of_nat (toy_tree s))) None None,
+      (match m with
+       | MF F_Read => mkAns (VBytes []) (Some EEOF) None      (* every file is empty *)
+       | _ => mkAns (VInt (Z.of_nat (toy_tree s))) None None
+       end,
        mkToy (match bclass m a with CWrite => S (toy_tree s) | _ => toy_tree s end) (toy_next s))
   end.
 
